@@ -86,7 +86,7 @@ func (m *Migrator) MigrateFiles(patterns []string, outputPath string) error {
 			}
 
 			// Extract source imports for package reference resolution
-			sourceImports := m.parser.ExtractImports(file)
+			sourceImports := m.parser.ExtractImportsWithInfo(file, pkg.TypesInfo)
 
 			// Extract patterns
 			patterns, warnings := m.parser.ExtractPatterns(file, pkg.TypesInfo, wireImport, filePath)
